@@ -33,10 +33,10 @@ type DiagRec struct {
 
 // FileRun is what the real checkers did on one file (modelled checkers only are kept in full).
 type FileRun struct {
-	Pkg      string               `json:"pkg"`
-	File     string               `json:"file"`
-	Outcomes map[string]ModelObs  `json:"outcomes"` // checker -> observation (default variant)
-	Namesake map[string][]int     `json:"namesake"` // checker -> offsets of diagnostics the C20 oracle flags
+	Pkg      string              `json:"pkg"`
+	File     string              `json:"file"`
+	Outcomes map[string]ModelObs `json:"outcomes"` // checker -> observation (default variant)
+	Namesake map[string][]int    `json:"namesake"` // checker -> offsets of diagnostics the C20 oracle flags
 }
 
 // ModelObs is the observation compared with the Coq model.
